@@ -145,7 +145,7 @@ class WriterExec:
             if e.id in env.e:
                 return self.sym(env.e[e.id], Env(env.b, {}))
             v = self.folder.fold(e)
-            if isinstance(v, bytes):
+            if isinstance(v, bytes) and not (getattr(self, "keep_const_names", False) and e.id.isupper()):
                 return [("const", v)] if v else []
             return [("bytes", e.id, "")]
         if isinstance(e, ast.BinOp) and isinstance(e.op, ast.Add):
